@@ -39,6 +39,28 @@ CHECKS["C18"] = dict(
          "after a multi-line string and consumers of positions are outside the claim.",
     design="§4 C18")
 
+CHECKS["C03"] = dict(
+    engine="E2 mirsym (MIR -> z3) + E1 kani", technique="symbolic execution of rustc MIR with overflow checks, z3 unreachability of every panic path; Kani/CBMC harnesses for lexer steps",
+    text="Bounded symbolic model checking of panic-freedom for the position, lexer-state and diagnostic rendering "
+         "kernels: every overflow assert, unwrap/expect and cast of format_location (+closures), format_err, "
+         "State::token/space/flush_indents, Lex::new and Position::get_width is a path end; z3 shows all of them "
+         "unreachable for every valid position / lexer state within the bounds, or returns values that are replayed natively.",
+    note="RESTRICTED claim: lexing kernels and rendering arithmetic only. Parser, context builder, constraint generation, "
+         "unification, generation, stack depth and time bounds are outside (not executable by Kani, not loop-free integer "
+         "facts). Bounds: coordinates <= 2^31-2, lexer state <= 2^20, <= 2^20 lines.",
+    design="§4 C03")
+CHECKS["C14"] = dict(
+    engine="E2 mirsym (MIR -> z3)", technique="symbolic execution of rustc MIR, z3 non-interference (2-safety by substitution) lemmas over extracted State summaries",
+    text="Bounded symbolic model checking at token-stream level: z3 proves over the summaries extracted from the MIR of "
+         "State::token/newline/space/flush_indents that layout emission is independent of line number, pending newlines "
+         "and token kind, that a newline resets (line_indent, token_this_line, column), that spaces after a token only "
+         "move the column, that equal indentation emits no layout, that flush depends on cur_indent only, and that the "
+         "parser's filter closure drops exactly Comment tokens.",
+    note="Token-stream level only: that the parser is insensitive to the NUMBER of consecutive NL tokens is outside the "
+         "claim (observed counterexample: a blank line directly before `else` is rejected, DESIGN §8). CRLF is covered by "
+         "the lexer-step harnesses. Redundant parentheses belong to C10.",
+    design="§4 C14")
+
 NOT_APPLICABLE = {
     "C02": "needs the generator executed on symbolic programs (core::fmt/to_py recursion does not finish in CBMC even on concrete 3-node trees) and membership in Python's grammar as the assertion; no encodable kernel (DESIGN §6)",
     "C04": "oracle is Python's dynamic semantics over whole programs and the subject is the whole checker (HashSet/recursion out of reach of Kani; not loop-free for the MIR executor) (DESIGN §6)",
